@@ -1,0 +1,94 @@
+//go:build verif
+
+// Machine-checked contracts for package offline_signature (comment-only file;
+// never compiled into the library).  Read by /verif/engine (gvc).
+
+package offline_signature
+
+//@ import "time"
+//@ import i2pd "github.com/go-i2p/common/data"
+
+//@ spec func max0(x int) int {
+//@   if x < 0 { return 0 }
+//@   return x
+//@ }
+
+//@ contract SigningPublicKeySize(sigtype uint16) (size int)
+//@   ensures @C10 size == max0(i2pd.SpecSigPubLen(int(sigtype)))
+//@   modifies nothing
+
+//@ contract SignatureSize(sigtype uint16) (size int)
+//@   ensures @C10 size == max0(i2pd.SpecSigLen(int(sigtype)))
+//@   modifies nothing
+
+// Wire image: expires(4) sigtype(2) transient key, signature.
+//@ spec func OffWire(o *OfflineSignature) []byte {
+//@   return cat(be32(o.expires), be16(o.sigtype), o.transientPublicKey, o.signature)
+//@ }
+//@ spec func be32(v uint32) []byte { return []byte{byte(v >> 24), byte(v >> 16), byte(v >> 8), byte(v)} }
+//@ spec func be16(v uint16) []byte { return []byte{byte(v >> 8), byte(v)} }
+
+//@ spec func OffInv(o *OfflineSignature) bool {
+//@   return o != nil && i2pd.SpecSigPubLen(int(o.sigtype)) > 0 && len(o.transientPublicKey) == i2pd.SpecSigPubLen(int(o.sigtype)) &&
+//@     i2pd.SpecSigLen(int(o.destinationSigType)) > 0 && len(o.signature) == i2pd.SpecSigLen(int(o.destinationSigType))
+//@ }
+
+//@ spec func offExtent(data []byte, dst uint16) int { return 6 + i2pd.SpecSigPubLen(u16(data[4:6])) + i2pd.SpecSigLen(int(dst)) }
+
+//@ contract ReadOfflineSignature(data []byte, destinationSigType uint16) (o OfflineSignature, remainder []byte, err error)
+//@   ensures @C08 fresh(o.transientPublicKey) && fresh(o.signature)
+//@   ensures @C01 @C03 @C10 (err == nil) == (len(data) >= 6 && i2pd.SpecSigPubLen(u16(data[4:6])) > 0 && i2pd.SpecSigLen(int(destinationSigType)) > 0 && len(data) >= offExtent(data, destinationSigType))
+//@   ensures @C03 err == nil ==> suffix(remainder, data, offExtent(data, destinationSigType))
+//@   ensures @C03 err != nil ==> same(remainder, data)
+//@   ensures @C01 @C02 err == nil ==> uint64(o.expires) == val(data[0:4]) && int(o.sigtype) == u16(data[4:6]) && o.destinationSigType == destinationSigType
+//@   ensures @C01 @C02 err == nil ==> seqeq(o.transientPublicKey, data[6:6+i2pd.SpecSigPubLen(u16(data[4:6]))]) && seqeq(o.signature, data[6+i2pd.SpecSigPubLen(u16(data[4:6])):offExtent(data, destinationSigType)])
+//@   modifies nothing
+
+//@ contract (o *OfflineSignature) Bytes() (b []byte)
+//@   requires o != nil
+//@   ensures @C08 fresh(b)
+//@   ensures @C01 @C02 len(b) == 6+len(o.transientPublicKey)+len(o.signature) && uint64(o.expires) == val(b[0:4]) && int(o.sigtype) == u16(b[4:6])
+//@   ensures @C01 @C02 seqeq(b[6:6+len(o.transientPublicKey)], o.transientPublicKey) && seqeq(b[6+len(o.transientPublicKey):], o.signature)
+//@   modifies nothing
+
+//@ contract (o *OfflineSignature) TransientPublicKey() (k []byte)
+//@   requires o != nil
+//@   ensures @C08 fresh(k) && seqeq(k, o.transientPublicKey)
+//@   modifies nothing
+
+//@ contract (o *OfflineSignature) Signature() (s []byte)
+//@   requires o != nil
+//@   ensures @C08 fresh(s) && seqeq(s, o.signature)
+//@   modifies nothing
+
+//@ contract (o *OfflineSignature) ExpiresTime() (t time.Time)
+//@   requires o != nil
+//@   ensures @C15 t.Equal(time.Unix(int64(o.expires), 0))
+//@   modifies nothing
+
+//@ contract (o *OfflineSignature) ExpiresDate() (d *i2pd.Date, err error)
+//@   requires o != nil
+//@   ensures @C15 err == nil && d != nil && val(d[:]) == uint64(o.expires)*1000
+//@   modifies nothing
+
+//@ contract NewOfflineSignature(expires uint32, transientSigType uint16, transientPublicKey []byte, signature []byte, destinationSigType uint16) (o OfflineSignature, err error)
+//@   ensures @C08 fresh(o.transientPublicKey) && fresh(o.signature)
+//@   ensures @C14 (err == nil) == (i2pd.SpecSigPubLen(int(transientSigType)) > 0 && len(transientPublicKey) == i2pd.SpecSigPubLen(int(transientSigType)) && i2pd.SpecSigLen(int(destinationSigType)) > 0 && len(signature) == i2pd.SpecSigLen(int(destinationSigType)))
+//@   ensures @C14 err == nil ==> o.expires == expires && o.sigtype == transientSigType && o.destinationSigType == destinationSigType && seqeq(o.transientPublicKey, transientPublicKey) && seqeq(o.signature, signature)
+//@   modifies nothing
+
+//@ contract (o *OfflineSignature) ValidateStructure() (err error)
+//@   ensures @C14 (err == nil) == (OffInv(o) && o.expires != 0)
+//@   modifies nothing
+
+//@ lemma C01_ReadOfflineSignature(data []byte, dst uint16) {
+//@   o, rem, err := ReadOfflineSignature(data, dst)
+//@   if err == nil {
+//@     assert(seqeq(o.Bytes(), data[:len(data)-len(rem)]))
+//@   }
+//@ }
+
+//@ lemma C10_OfflineTablesAgree(t uint16) {
+//@   assert(SigningPublicKeySize(t) == max0(i2pd.SpecSigPubLen(int(t))))
+//@   assert(SignatureSize(t) == max0(i2pd.SpecSigLen(int(t))))
+//@ }
